@@ -4,7 +4,7 @@ from .. import ops_common as oc
 DECIDES = ('for refine_knotvector x {curve, surface u/v, volume u/v/w}: every block is guarded by param[k] > 0 alone, so an unselected '
            'direction is untouched; helper calls, density=param[k] and knot-vector updates belong to direction k (AX3/AX1); gather strides, '
            'scatter order and flip usage as in C04 (LY1/LY2); the size passed for direction k is the length of the refined rows and the other '
-           'sizes are the current ones, in (u, v, w) order (LY3). cells of A5.4's in-place-updated result array are duplicated only by deep copy (AL1).')
+           'sizes are the current ones, in (u, v, w) order (LY3). cells of the in-place-updated result array are duplicated only by deep copy (AL1).')
 NOT_DECIDED = 'shape invariance, bisection counts, resulting multiplicities, helpers.knot_refinement arithmetic (incl. aliasing of row copies inside A5.4).'
 TECHNIQUE = 'axis-tag dataflow, stride rule in polynomial normal form, structural gather/scatter rules'
 
